@@ -125,8 +125,8 @@ def check_C14(run):
     sel = [x for x in s if '"timeout":true' not in x]
     seld = [x for x in deep if '"timeout":true' not in x]
     run.extra["schedule_space"] = {"exhaustive_len7_without_timeout": len(sel), "simulated_len12": len(seld)}
-    canc = [x for x in sel if '"op":"Cancel"' in x and '"op":"Deliver"' in x]
-    run.extra["schedule_space"]["with_context_cancellation_of_an_accepted_connection"] = len(canc)
+    canc = [x for x in sel if ('"op":"Cancel"' in x and '"op":"Deliver"' in x) or '"op":"AccErr"' in x]
+    run.extra["schedule_space"]["with_context_cancellation_of_an_accepted_connection_or_an_injected_accept_failure"] = len(canc)
     if not thorough:
         sel = run.rng.sample(sel, min(len(sel), 600)) + run.rng.sample(canc, min(len(canc), 200))
         seld = run.rng.sample(seld, min(len(seld), 200))
@@ -141,7 +141,7 @@ def check_C14(run):
     def listen_ok(x):
         ops = json.loads(x)
         for i, o in enumerate(ops):
-            if o["op"] in ("Timeout", "Release") or (o["op"] == "Serve" and (o.get("timeout") or o.get("gate"))):
+            if o["op"] in ("Timeout", "Release", "AccErr") or (o["op"] == "Serve" and (o.get("timeout") or o.get("gate"))):
                 return False
             if o["op"] == "Install" and not (i + 1 < len(ops) and ops[i + 1]["op"] == "Serve"):
                 return False
@@ -152,7 +152,7 @@ def check_C14(run):
     replay_validate(run, lsel, ["service", "-listen"], "ServiceTrace", svc_trace_cfg(real=True), "C14 schedules on the Listen path (real abstract unix listeners)",
                     nontrivial=nt_l, classify=None, shards=16)
     run.write_evidence("model_checking",
-        "schedules = environment histories of spec/ServiceGen.tla (Install, Serve, Connect, Deliver, Shutdown, End(close|abort|handler error), Cancel of the serving context, second Bind, gate release) enumerated exhaustively up to 7 actions (quick: seeded sample) plus simulated histories of 12 actions; the subset expressible with real listeners is also run through Service.Listen (its own copy of the accept loop); non-trivial = a connection was accepted and a Shutdown completed",
+        "schedules = environment histories of spec/ServiceGen.tla (Install, Serve, Connect, Deliver, Shutdown, End(close|abort|handler error), Cancel of the serving context, an injected non-timeout Accept failure, second Bind, gate release; every scenario ends with a real Bind on the same object) enumerated exhaustively up to 7 actions (quick: seeded sample) plus simulated histories of 12 actions; the subset expressible with real listeners is also run through Service.Listen (its own copy of the accept loop); non-trivial = a connection was accepted and a Shutdown completed",
         exhaustive=False,
         assumptions=["placements of Shutdown finer than the harness's gates (Accept, SetDeadline, first Read) are explored in the model only",
                      "controlled listener / connections never delay or alter I/O by themselves"])
